@@ -31,23 +31,28 @@ def takeSign : Str → Bool × Str
   | '+' :: r => (false, r)
   | s => (false, s)
 
-/-- `digits [. digits*] | . digits` then optional `[eE] [+-]? digits`, up to the
-end of the string. Result: integer digits, fraction digits, exponent. -/
-def parseDecimalBody (e : Env) (s : Str) : Option (List Nat × List Nat × Int) :=
-  let ip := spanDigits e s
-  let fp := match ip.2 with
-    | '.' :: r => spanDigits e r
-    | r => ([], r)
-  if ip.1.isEmpty && fp.1.isEmpty then none else
-  match fp.2 with
-  | [] => some (ip.1, fp.1, 0)
+/-- optional fraction: `.` followed by digits -/
+def fracPart (e : Env) : Str → List Nat × Str
+  | '.' :: r => spanDigits e r
+  | r => ([], r)
+
+/-- optional exponent `[eE] [+-]? digits`, up to the end of the string -/
+def expTail (e : Env) (ip fp : List Nat) : Str → Option (List Nat × List Nat × Int)
+  | [] => some (ip, fp, 0)
   | c :: r3 =>
     if c = 'e' || c = 'E' then
       let sg := takeSign r3
       let ed := spanDigits e sg.2
       if ed.1.isEmpty || !ed.2.isEmpty then none
-      else some (ip.1, fp.1, if sg.1 then -(Int.ofNat (digitsVal ed.1)) else Int.ofNat (digitsVal ed.1))
+      else some (ip, fp, if sg.1 then -(Int.ofNat (digitsVal ed.1)) else Int.ofNat (digitsVal ed.1))
     else none
+
+/-- `digits [. digits*] | . digits` then optional `[eE] [+-]? digits`, up to the
+end of the string. Result: integer digits, fraction digits, exponent. -/
+def parseDecimalBody (e : Env) (s : Str) : Option (List Nat × List Nat × Int) :=
+  let ip := spanDigits e s
+  let fp := fracPart e ip.2
+  if ip.1.isEmpty && fp.1.isEmpty then none else expTail e ip.1 fp.1 fp.2
 
 /-! ### float -/
 
